@@ -5,6 +5,7 @@ use crate::adapter::{self, Outcome};
 use crate::fw::{flag, Ctx, Report, Tier};
 use crate::job::{Job, GEN_COUNT};
 use crate::pool;
+#[cfg(feature = "render")]
 use crate::sanit;
 use crate::stats::Stats;
 use crate::symbol;
@@ -341,7 +342,9 @@ pub fn run(ctx: &Ctx) -> Report {
             }
         }
     }
+    #[allow(unused_mut)]
     let mut extra = vec![];
+    #[cfg(feature = "render")]
     if ctx.tier == Tier::Thorough {
         let r = sanit::miri_stage(ctx, "c10", 16);
         r.apply(ID, &mut st, &mut extra);
